@@ -274,7 +274,8 @@ func (w *W) load(c *Cell) Value {
 
 func (w *W) store(c *Cell, v Value) {
 	if c.Frozen && w.initDepth == 0 {
-		w.globalsDirty = true
+		// package-level state is shared by all paths: remember how to undo the write
+		w.journal = append(w.journal, undoRec{cell: c, v: c.V, poison: c.Poison})
 	}
 	c.Poison = ""
 	if !c.Agg {
@@ -589,7 +590,7 @@ func (w *W) mapSet(m *MapObj, key, val Value) {
 		w.goPanicStr("assignment to entry in nil map")
 	}
 	if m.Frozen && w.initDepth == 0 {
-		w.globalsDirty = true
+		w.journalMap(m)
 	}
 	if i := w.mapFind(m, key); i >= 0 {
 		m.Vals[i] = val
@@ -604,7 +605,7 @@ func (w *W) mapDelete(m *MapObj, key Value) {
 		return
 	}
 	if m.Frozen && w.initDepth == 0 {
-		w.globalsDirty = true
+		w.journalMap(m)
 	}
 	if i := w.mapFind(m, key); i >= 0 {
 		m.Keys = append(append([]Value{}, m.Keys[:i]...), m.Keys[i+1:]...)
@@ -640,3 +641,36 @@ func (w *W) concInt(t *smt.Term, signed bool, what string) int64 {
 }
 
 func bigOf(u uint64) *big.Int { return new(big.Int).SetUint64(u) }
+
+// ---- undo journal for package-level state -------------------------------------
+
+type undoRec struct {
+	cell   *Cell
+	v      Value
+	poison string
+	m      *MapObj
+	keys   []Value
+	vals   []Value
+}
+
+func (w *W) journalMap(m *MapObj) {
+	for _, u := range w.journal {
+		if u.m == m {
+			return
+		}
+	}
+	w.journal = append(w.journal, undoRec{m: m, keys: append([]Value{}, m.Keys...), vals: append([]Value{}, m.Vals...)})
+}
+
+// undoGlobals restores package-level cells and maps written by the last path.
+func (w *W) undoGlobals() {
+	for i := len(w.journal) - 1; i >= 0; i-- {
+		u := w.journal[i]
+		if u.m != nil {
+			u.m.Keys, u.m.Vals = u.keys, u.vals
+			continue
+		}
+		u.cell.V, u.cell.Poison = u.v, u.poison
+	}
+	w.journal = w.journal[:0]
+}
